@@ -74,7 +74,7 @@ func buildRouter(defs []refmodel.RouteDef, rec *hitRec, opts ...func(*rux.Router
 }
 
 // registration APIs a route can come in through
-var regAPIs = []string{"Add", "AddRoute(NewRoute)", "AddNamed", "NewRoute.AttachTo", "method-helper", "WithOptions-then-Add", "Group(split)"}
+var regAPIs = []string{"Add", "AddRoute(NewRoute)", "AddNamed", "NewRoute.AttachTo", "method-helper", "WithOptions-then-Add", "Group(split)", "Group(nested split)"}
 
 // splitForGroup cuts a pattern at its last '/' that lies outside braces and brackets: ("/a/{x}", "/b") for "/a/{x}/b".
 // ok is false when there is no such cut with a non-empty prefix and a non-empty remainder.
@@ -173,6 +173,18 @@ func registerIntoAt(r0 *rux.Router, defs []refmodel.RouteDef, via []string, rout
 				// the same pattern spelled as a group prefix plus a route path (the prefix may hold variables)
 				if pre, rest, ok := splitForGroup(d.Path); ok {
 					r.Group(pre, func() { rt = r.Add(rest, h, d.Methods...) })
+				} else {
+					rt = r.Add(d.Path, h, d.Methods...)
+				}
+			case "Group(nested split)":
+				// the pattern spelled as two nested group prefixes plus a route path; the inner prefix is given WITHOUT its
+				// leading slash (prefixes are normalised one by one)
+				if pre, rest, ok := splitForGroup(d.Path); ok {
+					if outer, inner, ok2 := splitForGroup(pre); ok2 {
+						r.Group(outer, func() { r.Group(strings.TrimPrefix(inner, "/"), func() { rt = r.Add(rest, h, d.Methods...) }) })
+					} else {
+						r.Group(pre, func() { rt = r.Add(rest, h, d.Methods...) })
+					}
 				} else {
 					rt = r.Add(d.Path, h, d.Methods...)
 				}
